@@ -125,6 +125,12 @@ class Ctx:
             out[i] = r
         return out
 
+    def close_pool(self, devices=1, procs=None):
+        p = self._pools.pop((devices, procs), None)
+        if p is not None:
+            p.terminate()
+            p.join()
+
     def close(self):
         for p in self._pools.values():
             p.terminate()
